@@ -1,6 +1,7 @@
 from __future__ import annotations
 
 import logging
+import os
 from typing import (
     IO,
     Callable,
@@ -46,7 +47,9 @@ from pyhf.typing import (
 
 log = logging.getLogger(__name__)
 
-FileCacheType = MutableMapping[str, Tuple[Union[IO[str], IO[bytes]], Set[str]]]
+FileCacheType = MutableMapping[
+    str, Tuple[Union[IO[str], IO[bytes]], Set[str], Tuple[int, int, int, int]]
+]
 MountPathType = Iterable[Tuple[Path, Path]]
 ResolverType = Callable[[str], Path]
 
@@ -116,12 +119,23 @@ def import_root_histogram(
     path = path or ''
     path = path.strip('/')
     fullpath = str(resolver(filename))
-    if fullpath not in filecache:
+    # a cached handle is only valid for the file it was opened on: the same
+    # path may meanwhile have been rewritten or (for relative paths after a
+    # change of working directory) refer to a different file
+    file_stat = os.stat(fullpath)
+    signature = (
+        file_stat.st_dev,
+        file_stat.st_ino,
+        file_stat.st_size,
+        file_stat.st_mtime_ns,
+    )
+    cached = filecache.get(fullpath)
+    if cached is None or cached[2] != signature:
         f = uproot.open(fullpath)
         keys = set(f.keys(cycle=False))
-        filecache[fullpath] = (f, keys)
+        filecache[fullpath] = (f, keys, signature)
     else:
-        f, keys = filecache[fullpath]
+        f, keys, _ = cached
 
     fullname = "/".join([path, name])
 
